@@ -49,7 +49,82 @@ def gen_big_case(rng, k):
     return {"id": "c%d" % k, "nodes": nodes, "maxActive": 0, "handlers": [0, 0, 0, 0], "stopAfter": -1, "seed": rng.randrange(1 << 30), "dry": False}
 
 
+# C03 "… executed exactly once if the step is runnable and NEVER OTHERWISE": a command started for a step whose
+# dependencies do not let it proceed is C01's / C02's verdict and C03's as well; C02 "… has not been executed at all"
+ALSO = {"C03": (("C01:start-with-unlicensed-dependency", "C03:executed-although-not-runnable"),
+                ("C02:executed-or-mislabelled-downstream-of-blocker", "C03:executed-although-not-runnable")),
+        "C02": (("C01:start-with-unlicensed-dependency", "C02:executed-although-a-dependency-does-not-let-it-proceed"),)}
+
+
+TIMING_WORDS = ("does-not-complete", "does-not-end", "non-terminal-final-state", "left-unfinished", "replay-op-not-applicable",
+                "precondition-not-evaluated")
+
+
+def is_timing_verdict(m):
+    return any(w in m for w in TIMING_WORDS)
+
+
+def gen_fanin_case(rng, k, maxn):
+    """wide fan-ins: 3..maxn-1 independent sources and 1-2 joins naming 3 or more of them in random order, so that
+    a straggler (still running / failing) sits between dependencies that are already finished when the loop polls"""
+    w = rng.randint(3, max(3, maxn - 2))
+    nj = rng.choice([1, 1, 2])
+    n = w + nj
+    ids = list(range(n)); rng.shuffle(ids)
+    src, joins = ids[:w], ids[w:]
+    nodes = [None] * n
+    for i in src:
+        r = rng.random()
+        limit = rng.choice([0, 0, 1])
+        nodes[i] = {"deps": [], "cf": rng.random() < 0.3, "cs": rng.random() < 0.3, "limit": limit,
+                    "pre": rng.choice([0, 0, 0, 0, 2]), "prev": 0, "fails": 0 if r < 0.7 else (limit + 1 if r < 0.85 else -1),
+                    "obeys": True, "sig": "", "rep": False}
+    for j in joins:
+        deps = rng.sample(src, rng.randint(3, w)); rng.shuffle(deps)
+        nodes[j] = {"deps": deps, "cf": False, "cs": False, "limit": 0, "pre": 0, "prev": 0, "fails": 0, "obeys": True, "sig": "", "rep": False}
+    return {"id": "c%d" % k, "nodes": nodes, "maxActive": rng.choice([0, 0, 0, w]), "handlers": [rng.choice([0, 1]) for _ in range(4)],
+            "stopAfter": -1, "seed": rng.randrange(1 << 30), "dry": False}
+
+
+def gen_pressure_case(rng, k, maxn):
+    """limit pressure: more independent ready steps than slots, several of them failing with a retry budget, so that
+    a step is handed back for a retry while other ready steps (earlier and later in the list) wait for a slot"""
+    n = rng.randint(4, max(4, min(maxn, 7)))
+    nodes = []
+    for i in range(n):
+        limit = rng.choice([0, 1, 1, 2])
+        r = rng.random()
+        fails = 0 if (limit == 0 or r < 0.35) else (rng.randint(1, limit) if r < 0.8 else limit + 1)
+        deps = [rng.randrange(i)] if i > 1 and rng.random() < 0.2 else []
+        nodes.append({"deps": deps, "cf": rng.random() < 0.3, "cs": False, "limit": limit, "pre": 0, "prev": 0, "fails": fails,
+                      "obeys": True, "sig": "", "rep": False})
+    kk = rng.choice([1, 2, 2, 3])
+    if rng.random() < 0.5:
+        # several early-listed steps waiting on one late-listed step, a retried step in between: when the late step
+        # finishes, one waiter takes the slot and the others are ready but held back by the limit while the retried
+        # step is still being attempted
+        nw = rng.randint(2, 3)
+        mk = lambda deps, limit, fails: {"deps": deps, "cf": False, "cs": False, "limit": limit, "pre": 0, "prev": 0, "fails": fails,
+                                         "obeys": True, "sig": "", "rep": False}
+        lim = rng.choice([1, 2, 3])
+        nx = rng.randint(1, 2)
+        d = nw + 1 + nx
+        nodes = [mk([d], 0, 0) for _ in range(nw)] + [mk([], lim, rng.choice([lim, lim + 1, -1]))] + \
+                [mk([], 0, 0) for _ in range(nx)] + [mk([], 0, 0)]
+        kk = 1 + nx
+    c = {"id": "c%d" % k, "nodes": nodes, "maxActive": kk, "handlers": [rng.choice([0, 1]) for _ in range(4)],
+         "stopAfter": -1, "seed": rng.randrange(1 << 30), "dry": False}
+    if rng.random() < 0.3:
+        c["slowDone"] = 25
+    return c
+
+
 def gen_case(rng, k, maxn):
+    r0 = rng.random()
+    if maxn >= 5 and r0 < 0.12:
+        return gen_fanin_case(rng, k, maxn)
+    if maxn >= 5 and r0 < 0.22:
+        return gen_pressure_case(rng, k, maxn)
     n = rng.randint(1, maxn)
     order = list(range(n)); rng.shuffle(order)
     pos = {v: i for i, v in enumerate(order)}
@@ -69,18 +144,24 @@ def gen_case(rng, k, maxn):
                       "sig": rng.choice(["", "", "", "", "SIGINT"]), "rep": False})
     stop = -1 if rng.random() < 0.6 else rng.randint(0, 2 * n)
     dry = rng.random() < 0.05
+    rep_int = 0
     if not dry and rng.random() < 0.25:
         # harness-controlled preconditions: the stop / other completions can land while the loop is
         # between its launch decision and the launch itself
         for nd in rng.sample(nodes, min(len(nodes), rng.randint(1, 2))):
             nd["pre"] = 3; nd["prev"] = rng.choice([1, 1, 2])
+            if nd["limit"] > 0 and nd["fails"] != 0 and rng.random() < 0.6:
+                nd["prev"] = 3      # met at the first evaluation, unmet when the retried step is re-checked
     if stop >= 0 and not dry and rng.random() < 0.3:
         nd = rng.choice(nodes)        # a repeating step (only in stopped runs: otherwise it repeats for ever)
         nd["rep"] = True; nd["limit"] = 0; nd["fails"] = rng.choice([0, 0, 1, 2]); nd["cf"] = rng.random() < 0.5
+        rep_int = rng.choice([0, 0, 120])     # with an interval the stop can be placed inside the sleep between two iterations
     c = {"id": "c%d" % k, "nodes": nodes,
          "maxActive": rng.choice([0, 0, 1, 1, 2, 3, n + 1]),
          "handlers": [rng.choice([0, 1, 1, 2]) for _ in range(4)],
          "stopAfter": stop, "seed": rng.randrange(1 << 30), "dry": dry}
+    if rep_int:
+        c["repInt"] = rep_int
     if n <= 8 and rng.random() < 0.2:
         c["slowDone"] = rng.choice([25, 60])   # the done-channel listener is busy: every worker's report blocks that long
     return c
@@ -251,11 +332,27 @@ def run_stream(chk, prop, replay=None):
         stat["limited"] += 0 < c["maxActive"] < len(c["nodes"])
         stat["ops_total"] += len(r["ops"]); stat["nodes_total"] += len(c["nodes"])
         stat["finished"] += bool(r.get("finished")); stat["hang"] += bool(r.get("hang"))
-        for m in r.get("monitor") or []:
+        mon = r.get("monitor") or []
+        if any(is_timing_verdict(m) for m in mon):
+            # "the run does not end" is judged against wall-clock patience: confirm on the case alone before it counts
+            again = run_harness(binp, [c], workers=1, quiet_ms=25).get(c["id"]) or {}
+            mon2 = again.get("monitor") or []
+            keep = {":".join(m.split(":")[:2]) for m in mon2}
+            dropped = [m for m in mon if is_timing_verdict(m) and ":".join(m.split(":")[:2]) not in keep]
+            if dropped:
+                stat["timing_verdicts_not_reproduced"] = stat.get("timing_verdicts_not_reproduced", 0) + len(dropped)
+            mon = [m for m in mon if m not in dropped]
+        for m in mon:
             if m.startswith(prop + ":"):
                 sig = ":".join(m.split(":")[:2])
                 chk.violation(sig, m, {"case": dict(c, ops=r["ops"]), "verdict": m, "snaps": r["snaps"][-2:],
                                        "events": r["events"][:200]})
+            else:
+                # verdicts of a sibling property that are ALSO a clause of this one
+                for (pfx, as_sig) in ALSO.get(prop, ()):
+                    if m.startswith(pfx):
+                        chk.violation(as_sig, "%s (monitor verdict %s)" % (as_sig, m),
+                                      {"case": dict(c, ops=r["ops"]), "verdict": m, "snaps": r["snaps"][-2:], "events": r["events"][:200]})
     # correspondence
     dis, rc, derr = batch_compare(cases, results)
     if rc != 0:
